@@ -74,17 +74,24 @@ _FLT_RE = re.compile(r'^-?(0|[1-9][0-9]*)\.0$')
 
 
 def register_literals(lits):
-    """Register the string literals a harness (and the code under test) uses;
-    their atoms keep the real relative order."""
-    global _LITS
-    s = set(_LITS)
-    for x in lits:
-        if not _INT_RE.match(x) and not (_FLT_RE.match(x) and x != '-0.0'):
-            s.add(x)
-    _LITS = sorted(s)
-    _LIT_ATOM.clear()
-    for i, x in enumerate(_LITS):
-        _LIT_ATOM[x] = (i + 1) * _SPACING
+    """Kept for the harnesses' sake; literal atoms no longer need registration."""
+
+
+_BASE_COUNT = {}
+
+
+def _lit_atom(s):
+    """Integer atom of a string literal, derived from its bytes so that the
+    real lexicographic order is kept (first 6 bytes, then length); literals
+    the code under test introduces need no registration."""
+    a = _LIT_ATOM.get(s)
+    if a is None:
+        b = s.encode('utf-8', 'surrogatepass')
+        base = (int.from_bytes(b[:6].ljust(6, b'\0'), 'big') << 28) + (min(len(b), 4095) << 16)
+        k = _BASE_COUNT.get(base, 0)
+        _BASE_COUNT[base] = k + 1
+        a = _LIT_ATOM[s] = base + k
+    return a
 
 
 def lit(s):
@@ -93,9 +100,7 @@ def lit(s):
         return SymStr(repr_int_atom(M.intval(int(s))), s)
     if _FLT_RE.match(s) and s != '-0.0':
         return SymStr(repr_float_atom(M.intval(int(s[:-2]))), s)
-    a = _LIT_ATOM.get(s)
-    if a is None:
-        raise HarnessError('unregistered string literal %r' % (s,))
+    a = _lit_atom(s)
     eng = Engine.cur
     t = M.intval(a)
     k = ('lit', a)
